@@ -127,8 +127,16 @@ class Ctx:
         if getattr(self, "snap", None):
             return self.snap
         snap = self.path("repo")
-        self.run(["rsync", "-a", "--delete", "--exclude", ".git", REPO + "/", snap + "/"],
-                 timeout=300, what="snapshot of " + REPO)
+        for attempt in range(3):
+            # 23/24 = partial transfer / files vanished: the tree was being edited while it was copied
+            rc, out = self.run(["rsync", "-a", "--delete", "--exclude", ".git", REPO + "/", snap + "/"],
+                               timeout=300, what="snapshot of " + REPO, ok_codes=(0, 23, 24))
+            if rc == 0:
+                break
+            log("[build] snapshot of %s: rsync exited %d, copying again" % (REPO, rc))
+            time.sleep(1 + attempt)
+        else:
+            raise MachineryError("snapshot of %s: rsync kept failing (rc=%d)\n%s" % (REPO, rc, out[-1500:]))
         hdir = os.path.join(ROOT, "harness")
         mod = open(os.path.join(hdir, "go.mod")).read()
         mod2 = re.sub(r"(replace\s+github.com/pinealctx/neptune\s*=>\s*)\S+", r"\g<1>" + snap, mod)
@@ -552,7 +560,8 @@ def neptune_crash(out):
     if not m:
         return None
     rest = out[m.end():]
-    g = re.search(r"^goroutine \d+ \[[^\]]*\]:\n", rest, re.M)
+    # "goroutine 7 [running]:" in panics, "goroutine 7 gp=0x.. m=3 mp=0x.. [running]:" in fatal errors
+    g = re.search(r"^goroutine \d+ (?:[a-z]+=\S+ )*\[[^\]]*\]:\n", rest, re.M)
     if not g:
         return None
     for line in rest[g.end():].split("\n"):
